@@ -223,6 +223,20 @@ Definition spec_errors_dict (T : table) (db : database) (e : expr) : list error 
 Definition request_errors (gradient hessian bhhh : bool) : list error :=
   if (hessian || bhhh) && negb gradient then [EHessianNoGradient] else [].
 
+(* BIOGEME._audit on a specification with several formulas ({'log_like': ..., 'weight': ..., ...}): for each
+   formula the two placement rules and the audit; the lists are accumulated over the formulas (AccAll) --
+   or, if the list were re-assigned inside the loop, only the last formula's survives (AccLast) *)
+Inductive accmode := AccAll | AccLast.
+
+Definition formula_errors (T : table) (db : database) (e : expr) : list error :=
+  map EDrawsOutside (check_draws T e) ++ map ERvOutside (check_rv T e) ++ audit T db e.
+
+Definition biogeme_audit_errors (m : accmode) (T : table) (db : database) (fs : list expr) : list error :=
+  match m with
+  | AccAll => flat_map (formula_errors T db) fs
+  | AccLast => match rev fs with [] => [] | e :: _ => formula_errors T db e end
+  end.
+
 (* Expression.get_value_c / get_value_and_derivatives(database, prepare_ids=True, gradient, hessian, bhhh):
    prepare (duplicates), audit, the two placement rules, the request *)
 Definition eval_errors (T : table) (db : database) (e : expr) (gradient hessian bhhh : bool) : list error :=
